@@ -11,40 +11,26 @@ interpreter's `tables.CaseFold` on decoder output.  Every per-function file (`Sr
 only this, so an edit of one Go function breaks only the theorems about that function.
 -/
 namespace GoSsa.Str
-open GoSsa Gen.Src Utf8
+open GoSsa Utf8
 
 /-- symbolic execution of the function under study; calls into other functions stay folded -/
 macro "src_run" "[" ds:Lean.Parser.Tactic.simpLemma,* "]" : tactic =>
   `(tactic| simp (disch := first | assumption | omega | simp) [run_step, run_jump, run_ret, run_cond, run_panic, step, Frame.val, Frame.set, Frame.setL, Frame.goto, splitPhis, edgeOpd,
       binop, $ds,*])
 
-abbrev P := Gen.Src.str
-
-/-! ### look-up facts for the callees -/
-theorem find_Compare : P.find? (fun fn => fn.name == "Compare") = some str_Compare := by rfl
 theorem nb_Compare (a h) : builtin false "Compare" a h = none := by rfl
-theorem find_hasPrefixUnicode : P.find? (fun fn => fn.name == "hasPrefixUnicode") = some str_hasPrefixUnicode := by rfl
 theorem nb_hasPrefixUnicode (a h) : builtin false "hasPrefixUnicode" a h = none := by rfl
-theorem find_hasSuffixUnicode : P.find? (fun fn => fn.name == "hasSuffixUnicode") = some str_hasSuffixUnicode := by rfl
 theorem nb_hasSuffixUnicode (a h) : builtin false "hasSuffixUnicode" a h = none := by rfl
-theorem find_Index : P.find? (fun fn => fn.name == "Index") = some str_Index := by rfl
 theorem nb_Index (a h) : builtin false "Index" a h = none := by rfl
-theorem find_IndexAny : P.find? (fun fn => fn.name == "IndexAny") = some str_IndexAny := by rfl
 theorem nb_IndexAny (a h) : builtin false "IndexAny" a h = none := by rfl
-theorem find_IndexRune : P.find? (fun fn => fn.name == "IndexRune") = some str_IndexRune := by rfl
 theorem nb_IndexRune (a h) : builtin false "IndexRune" a h = none := by rfl
-theorem find_indexRune : P.find? (fun fn => fn.name == "indexRune") = some str_indexRune := by rfl
 theorem nb_indexRune (a h) : builtin false "indexRune" a h = none := by rfl
-theorem find_indexByte : P.find? (fun fn => fn.name == "indexByte") = some str_indexByte := by rfl
 theorem nb_indexByte (a h) : builtin false "indexByte" a h = none := by rfl
-theorem find_TrimPrefix : P.find? (fun fn => fn.name == "TrimPrefix") = some str_TrimPrefix := by rfl
 theorem nb_TrimPrefix (a h) : builtin false "TrimPrefix" a h = none := by rfl
-theorem find_indexRuneCase : P.find? (fun fn => fn.name == "indexRuneCase") = some str_indexRuneCase := by rfl
 theorem nb_indexRuneCase (a h) : builtin false "indexRuneCase" a h = none := by rfl
-
-theorem find_clamp : P.find? (fun fn => fn.name == "clamp") = some str_clamp := by rfl
 theorem nb_clamp (a h) : builtin false "clamp" a h = none := by rfl
 
+theorem nb_clamp_byt (a h) : builtin true "clamp" a h = none := by rfl
 
 theorem wrap_i64_small (v : Int) (h1 : -9223372036854775808 ≤ v) (h2 : v < 9223372036854775808) : wrap .i64 v = v := by
   unfold wrap toU bits signed
